@@ -638,14 +638,16 @@ func locateWrite(writer string, t any, opt, depth int) (kind string, d int) {
 }
 
 // prettyBoth writes the simple and the gen form with the pretty writer.
-func prettyBoth(senForm bool, t any, width, maxDepth int) (sText, gText string, pan any) {
+func prettyBoth(senForm, color bool, t any, width, maxDepth int) (sText, gText string, pan any) {
 	defer func() {
 		if r := recover(); r != nil {
 			pan = r
 		}
 	}()
 	g := nodeAny(toGen(t))
-	w := pretty.Writer{Options: ojg.Options{Sort: true}, Width: width, MaxDepth: maxDepth, SEN: senForm}
+	opt := ojg.DefaultOptions // the colour strings of the defaults
+	opt.Sort, opt.OmitNil, opt.Color = true, false, color
+	w := pretty.Writer{Options: opt, Width: width, MaxDepth: maxDepth, SEN: senForm}
 	sText = string(w.Encode(t))
 	gText = string(w.Encode(g))
 	return
@@ -661,10 +663,14 @@ func prettyFindings(c *core.Ctx, t any) []finding {
 		return nil
 	}
 	flat := len(oj.JSON(t, &ojg.Options{Sort: true}))
-	for _, senForm := range []bool{false, true} {
+	for fi := 0; fi < 4; fi++ {
+		senForm, color := fi&1 == 1, fi&2 == 2
 		name := "pretty.JSON"
 		if senForm {
 			name = "pretty.SEN"
+		}
+		if color {
+			name += "+Color" // the colour escapes must not count as width
 		}
 	sweep:
 		for width := flat - 8; width <= flat+8; width++ {
@@ -672,7 +678,7 @@ func prettyFindings(c *core.Ctx, t any) []finding {
 				continue
 			}
 			for _, md := range []int{1, 2, 3} {
-				s, g, pan := prettyBoth(senForm, t, width, md)
+				s, g, pan := prettyBoth(senForm, color, t, width, md)
 				if c != nil {
 					c.Add("evaluations", 2)
 				}
